@@ -5,8 +5,15 @@ import "xkvverif/internal/core"
 // Registry maps a property id to the function that adds its obligations to the report.
 var Registry = map[string]func(*core.Prog, *core.Report){
 	"C01": C01,
+	"C02": C02,
+	"C04": C04,
+	"C05": C05,
 	"C08": C08,
 	"C09": C09,
+	"C11": C11,
+	"C12": C12,
 	"C13": C13,
+	"C15": C15,
 	"C16": C16,
+	"C17": C17,
 }
